@@ -119,6 +119,31 @@ def check_router_run(ctx, sc, r):
             V("mandatory", "ROUTER_MANDATORY=0: sending to an unknown identity returned %s instead of dropping silently" % res)
 
 
+REPLY_SHAPES = [[24], [0, 24], [0], [0, 0, 24], [24, 0], [24, 0, 24], [0, 24, 0]]
+
+
+def reply_shapes_scenario(name, transport):
+    """A REQ and a DEALER each send one request per shape; the ROUTER answers with that shape."""
+    ep = S.endpoint(transport, name)
+    to = 2500
+    socks = [{"name": "router", "type": "ROUTER", "opts": [S.i32(S.RCVTIMEO, to), S.i32(S.SNDTIMEO, to), S.i32(S.ROUTER_MANDATORY, 1)]},
+             {"name": "req", "type": "REQ", "opts": [[S.ROUTING_ID, "str", "R"], S.i32(S.RCVTIMEO, to), S.i32(S.SNDTIMEO, to)]},
+             {"name": "dlr", "type": "DEALER", "opts": [[S.ROUTING_ID, "str", "D"], S.i32(S.RCVTIMEO, to), S.i32(S.SNDTIMEO, to)]}]
+    rops = [{"op": "bind", "sock": "router", "ep": ep, "save": "ep"}, {"op": "barrier", "name": "go", "parties": 3}]
+    qops = [{"op": "barrier", "name": "go", "parties": 3}, {"op": "connect", "sock": "req", "ep": "$ep"}, {"op": "sleep", "ms": 250}]
+    dops = [{"op": "barrier", "name": "go", "parties": 3}, {"op": "connect", "sock": "dlr", "ep": "$ep"}, {"op": "sleep", "ms": 250}]
+    for k, sh in enumerate(REPLY_SHAPES, 1):
+        qops += [{"op": "send", "sock": "req", "mid": "q:%d" % k, "size": 20, "timeout_ms": to}, {"op": "barrier", "name": "asked%d" % k, "parties": 3},
+                 {"op": "recv_mp", "sock": "req", "timeout_ms": to}]
+        dops += [{"op": "send", "sock": "dlr", "mid": "d:%d" % k, "size": 20, "timeout_ms": to}, {"op": "barrier", "name": "asked%d" % k, "parties": 3},
+                 {"op": "recv_mp", "sock": "dlr", "timeout_ms": to}]
+        rops += [{"op": "recv_mp", "sock": "router", "timeout_ms": to}, {"op": "recv_mp", "sock": "router", "timeout_ms": to}, {"op": "barrier", "name": "asked%d" % k, "parties": 3},
+                 {"op": "send_mp", "sock": "router", "mid": "r:%d" % k, "sizes": sh, "prefix_hex": [b"R".hex()], "timeout_ms": to},
+                 {"op": "send_mp", "sock": "router", "mid": "s:%d" % k, "sizes": sh, "prefix_hex": [b"D".hex()], "timeout_ms": to}]
+    return {"name": name, "deadline_ms": 60000, "sockets": socks,
+            "tasks": [{"name": "router", "ops": rops}, {"name": "req", "ops": qops}, {"name": "dlr", "ops": dops}]}
+
+
 def run(ctx):
     thorough = ctx.tier == "thorough"
     vlib.cargo_build()
@@ -154,13 +179,28 @@ def run(ctx):
     scs.append(S.router_scenario("router-255-tcp", "tcp", peers=(("DEALER", "Z" * 255), ("DEALER", "y"), ("REQ", None))))
     scs.append(S.router_scenario("router-tcp-uring", "tcp", uring=True))
     scs.append(S.router_reconnect("router-reconnect-tcp", "tcp"))
+    # replies of every envelope shape (empty frames first, last, only) to every kind of peer
+    for tr in (["tcp", "ipc", "inproc"] if thorough else ["tcp"]):
+        scs.append(reply_shapes_scenario("router-replies-%s" % tr, tr))
     plain = [dict(s) for s in scs]
     for s in plain:
         s.pop("peers", None)
         s.pop("mandatory", None)
     res = S.run_scenarios(ctx, plain, "c11", timeout=1500, jobs=3)
     for sc, r0 in zip(scs, res):
-        if sc["name"].startswith("router-reconnect"):
+        if sc["name"].startswith("router-replies"):
+            rp = {"kind": "recorded-trace", "scenario": sc["name"], "records": [x for x in r0["records"] if x.get("ev") == "ret"][:120]}
+            if r0["panics"]:
+                ctx.violation("C11:panic", "%s: %s" % (sc["name"], r0["panics"][0]), rp)
+            for peer in ("req", "dlr"):
+                got = [x for x in S.rets(r0, "recv_mp", sock=peer)]
+                for k, sh in enumerate(REPLY_SHAPES):
+                    x = got[k] if k < len(got) else {"res": "missing"}
+                    if x.get("res") != "ok" or list(x.get("sizes", [])) != list(sh):
+                        ctx.violation("C11:envelope-changed:%s" % peer, "%s: the ROUTER replied to its %s peer with frames of sizes %s; the peer received %s" % (
+                            sc["name"], "REQ" if peer == "req" else "DEALER", sh, x.get("sizes") if x.get("res") == "ok" else x.get("res")), rp)
+                        break
+        elif sc["name"].startswith("router-reconnect"):
             rp = {"kind": "recorded-trace", "scenario": sc["name"], "records": [x for x in r0["records"] if x.get("ev") == "ret"]}
             d2 = [x for x in S.rets(r0, "recv_mp", sock="d2") if x.get("res") == "ok"]
             ids = [i for x in d2 for i in x.get("ids", [])]
